@@ -10,6 +10,10 @@ use serde::{Deserialize, Serialize};
 #[derive(Clone, Debug, Serialize, Deserialize)]
 pub struct Case {
     pub geo: Geometry,
+    /// files from an earlier run are already at the target paths: 0 none, 1 longer ones, 2 shorter ones, 3 same length
+    /// with other bytes (a restart / a second extraction into the same directory)
+    #[serde(default)]
+    pub stale: u8,
 }
 
 /// distinct plain relative paths: file k is `[dX/[dY/]]fK`
@@ -47,7 +51,8 @@ fn strategy(tier: Tier) -> BoxedStrategy<Case> {
             let files: Vec<(String, usize)> =
                 fl.iter().enumerate().map(|(k, (l, dirs))| (path_for(k, dirs), *l)).collect();
             let name = if multi { "out".to_string() } else { files[0].0.clone() };
-            Case { geo: Geometry { piece_len: pl, files, multi, name, content_seed: seed } }
+            let stale = if seed % 4 == 0 { 1 + ((seed >> 8) % 3) as u8 } else { 0 };
+            Case { geo: Geometry { piece_len: pl, files, multi, name, content_seed: seed }, stale }
         })
         .boxed()
 }
@@ -116,6 +121,22 @@ pub fn check(case: &Case) -> Outcome {
     // (b) extraction
     let cwd = fresh_cwd();
     t.write_piece_files().expect("write piece files");
+    if case.stale > 0 {
+        o.class("files-of-an-earlier-run-at-the-target-paths");
+        for (path, _start, len) in t.file_spans() {
+            let target = if geo.multi { format!("{}/{}", geo.name, path) } else { path.clone() };
+            let full = cwd.join(&target);
+            if let Some(parent) = full.parent() {
+                let _ = std::fs::create_dir_all(parent);
+            }
+            let old_len = match case.stale {
+                1 => len + 1 + (len % 7) * 11,
+                2 => len / 2,
+                _ => len,
+            };
+            let _ = std::fs::write(&full, vec![0xA5u8; old_len]);
+        }
+    }
     let before: Vec<String> = rt::list_tree(&cwd).into_iter().map(|(p, _)| p).collect();
     match catch(|| rt::run_extractor(&m)) {
         Err(p) => {
@@ -206,7 +227,7 @@ fn run_exhaustive(ctx: &WorkerCtx) -> WorkerReport {
         }
         let files: Vec<(String, usize)> = lens.iter().enumerate().map(|(i, l)| (path_for(i, &[]), *l)).collect();
         let name = if *multi { "out".to_string() } else { files[0].0.clone() };
-        let case = Case { geo: Geometry { piece_len: *pl, files, multi: *multi, name, content_seed: ctx.seed ^ (k as u64) } };
+        let case = Case { geo: Geometry { piece_len: *pl, files, multi: *multi, name, content_seed: ctx.seed ^ (k as u64) }, stale: (k % 4) as u8 };
         let out = check(&case);
         rep.evaluations += 1;
         n += 1;
@@ -243,7 +264,7 @@ fn run_exhaustive(ctx: &WorkerCtx) -> WorkerReport {
 pub fn def() -> PropDef {
     PropDef {
         id: "C03",
-        rule: "a generated torrent geometry (piece length 1..64 plus larger values, 0-8 files with lengths 0..3x piece length at distinct nested relative paths, single- and multi-file form, seeded random content) whose piece files are written by the harness; the real Extractor runs in a private directory. Oracle: piece_length(i) partitions total_length exactly as the reference geometry; after Done every listed file exists with exactly content[offset..offset+len], nothing unlisted is created, piece files are untouched; Fail on a consistent torrent is a violation. Non-trivial = some file lies strictly inside one piece at a non-zero offset, or crosses a piece boundary, or has length 0; distinct by hash of the case. Sub exhaustive enumerates all layouts with piece length 1..4, <=3 files, lengths 0..6.",
+        rule: "(in a quarter of the layouts files of an earlier run - longer, shorter or of equal length - are already at the target paths) a generated torrent geometry (piece length 1..64 plus larger values, 0-8 files with lengths 0..3x piece length at distinct nested relative paths, single- and multi-file form, seeded random content) whose piece files are written by the harness; the real Extractor runs in a private directory. Oracle: piece_length(i) partitions total_length exactly as the reference geometry; after Done every listed file exists with exactly content[offset..offset+len], nothing unlisted is created, piece files are untouched; Fail on a consistent torrent is a violation. Non-trivial = some file lies strictly inside one piece at a non-zero offset, or crosses a piece boundary, or has length 0; distinct by hash of the case. Sub exhaustive enumerates all layouts with piece length 1..4, <=3 files, lengths 0..6.",
         assumptions: &[
             "`path` of a files entry is a byte string (the form rdest's metainfo reader accepts), not a BEP3 path list",
             "for a files list with exactly one entry either ./name/path or ./path is accepted here; the location question belongs to C04",
@@ -255,7 +276,7 @@ pub fn def() -> PropDef {
                 cases: |t| t.pick(20_000, 400_000),
                 run,
                 replay: |v| replay_case::<Case>(v, check),
-                min_class: &[("file-inside-one-piece-offset>0", 0.1407), ("file-crosses-piece-boundary", 0.2), ("zero-length-file", 0.1448)],
+                min_class: &[("file-inside-one-piece-offset>0", 0.1407), ("file-crosses-piece-boundary", 0.2), ("zero-length-file", 0.1448), ("files-of-an-earlier-run-at-the-target-paths", 0.1)],
             },
         ],
     }
